@@ -39,6 +39,7 @@ from vgi_rpc.rpc import (
     _deserialize_params,
     _emit_access_log,
     _flush_collector,
+    _flush_collector_logs,
     _get_auth_and_metadata,
     _log_method_error,
     _read_request,
@@ -296,7 +297,8 @@ def _run_stream_init_sync(
                 outcome.error_type = _log_method_error(protocol_name, method_name, server_id, exc)
                 outcome.error_message = _truncate_error_message(exc)
                 outcome.http_status = HTTPStatus.INTERNAL_SERVER_ERROR
-                raise _RpcHttpError(exc, status_code=outcome.http_status) from exc
+                # What the method logged before it raised rides ahead of the error.
+                raise _RpcHttpError(exc, status_code=outcome.http_status, write_logs=sink.flush_contents) from exc
 
             # Mint the stream's call token once, here.  Everything it carries —
             # the call state, both schemas, the stream id — is fixed for the
@@ -705,6 +707,8 @@ def _run_http_exchange_turn(
         outcome.http_status = HTTPStatus.INTERNAL_SERVER_ERROR
         raise _RpcHttpError(exc, status_code=outcome.http_status) from exc
 
+    # Collector of the step, once it exists: its logs go out with an error.
+    step_out: OutputCollector | None = None
     try:
         # Reconcile the inbound batch's schema against the declared
         # input schema (strict on field set, tolerant of order/type).
@@ -717,7 +721,7 @@ def _run_http_exchange_turn(
         # one HTTP response.  The whole budget is available to this
         # single emit; there's no prior accumulation.
         ext_enabled = app._server.external_config is not None and app._server.external_config.storage is not None
-        out = OutputCollector(
+        step_out = out = OutputCollector(
             output_schema,
             server_id=server_id,
             producer_mode=False,
@@ -792,7 +796,16 @@ def _run_http_exchange_turn(
         outcome.error_type = _log_method_error(protocol_name, method_name, server_id, exc)
         outcome.error_message = _truncate_error_message(exc)
         outcome.http_status = HTTPStatus.INTERNAL_SERVER_ERROR
-        raise _RpcHttpError(exc, status_code=outcome.http_status, schema=output_schema) from exc
+        failed_out = step_out
+        raise _RpcHttpError(
+            exc,
+            status_code=outcome.http_status,
+            schema=output_schema,
+            # Logs of the step that raised precede its error.
+            write_logs=None
+            if failed_out is None
+            else lambda writer, _schema: _flush_collector_logs(writer, failed_out),
+        ) from exc
 
 
 def _exchange_error_response(
@@ -1050,6 +1063,7 @@ def _run_http_producer_turn(
                         _current_response_status.set(HTTPStatus.INTERNAL_SERVER_ERROR)
                         _write_error_batch(writer, schema, overshoot, server_id=server_id)
                         break
+                current_out[0] = None  # from here the flush owns the batches
                 cumulative_external_bytes += _flush_collector(writer, out, app._server.external_config)
                 if out.finished:
                     break
@@ -1109,6 +1123,10 @@ def _run_http_producer_turn(
             # client that only reads the first stream sees a valid header and
             # no error at all.
             _current_response_status.set(HTTPStatus.INTERNAL_SERVER_ERROR)
+            # Logs of the step that raised precede its error.
+            failed_out = current_out[0]
+            if failed_out is not None:
+                _flush_collector_logs(writer, failed_out)
             _write_error_batch(writer, schema, exc, server_id=server_id)
     # Close the codec BEFORE getvalue(): the compressed frame is only complete
     # once the stream is finalised.
